@@ -1131,7 +1131,10 @@ class SQLModel:
                     for ki, vi in dep_dict.items()
                     if (len(vi - {ki}) > 0)
                     or (ki not in vi)
-                    or ((term_dict[ki] is not None) and (term_dict[ki] != ki))
+                    or (
+                        (term_dict.get(ki) is not None)
+                        and (term_dict.get(ki) != ki)
+                    )
                 ]
 
             our_non_trivial_terms = non_trivial_terms(
